@@ -178,6 +178,26 @@ func (c *cse) opOverlap(u *user, o opt) {
 		c.count("overlap_preconditions_not_met", 1)
 		return
 	}
+	// Not generated (like the stale-snapshot schedule above): a path for which this clone's cache may still hold a
+	// STALE entry (a lock of it that someone else released, or a foreign lock a listing put there). A process that
+	// loaded that entry and then clears the cache logs "remove <path>"; when it saves, the store replays the log over
+	// what a concurrent process wrote, and the removal by PATH takes the other process's fresh lock of the same path
+	// with it. Observed on the pinned tree (thorough tier, seed 5); overlapping processes of one user lie outside the
+	// property's sequential quantifier, so this is reported in DESIGN.md as an observation, not judged.
+	stale := func(path string) bool {
+		for _, m := range []map[string]string{u.exp, u.pol, u.lost, u.candExp, u.candPol} {
+			for _, pth := range m {
+				if pth == path {
+					return true
+				}
+			}
+		}
+		return false
+	}
+	if stale(q) || stale(r) {
+		c.count("overlap_skipped_stale_cache_entry_for_the_path", 1)
+		return
+	}
 	var aArgs, bArgs []string
 	holdKind, verifyIn := "", false
 	switch shape {
